@@ -10,4 +10,7 @@ let entries : (string * (byte list -> byte list)) list = [
   "formats_model", formats_model_line;
   "regex_model", regex_model_line;
   "unquote_model", unquote_model_line;
+  "machine_model", machine_model_line;
+  "machine_graph", machine_graph_line;
+  "machine_spec", machine_spec_line;
 ]
